@@ -11,13 +11,14 @@ import (
 
 // Simulation hooks: no-ops unless the package is built with the verif tag.
 
-func simNProcs(n int) int             { return n }
-func simSpawn(int)                    {}
-func simEnter()                       {}
-func simExit()                        {}
-func simJoin()                        {}
-func simBeforeRW(*sync.RWMutex, bool) {}
-func simBeforeMutex(*sync.Mutex)      {}
-func simBeforeSend(chan osm.Object)   {}
-func simBeforeRecv(chan osm.Object)   {}
-func simBeforeClose(chan osm.Object)  {}
+func simNProcs(n int) int                { return n }
+func simSpawn(int)                       {}
+func simEnter()                          {}
+func simExit()                           {}
+func simJoin()                           {}
+func simBeforeRW(*sync.RWMutex, bool)    {}
+func simBeforeMutex(*sync.Mutex)         {}
+func simBeforeSend(chan osm.Object)      {}
+func simBeforeRecv(chan osm.Object)      {}
+func simBeforeClose(chan osm.Object)     {}
+func simBeforeLockAny(interface{}, bool) {}
